@@ -172,12 +172,21 @@ def collect(gen, cap, out):
     """run the generator, appending yielded bytes to `out`; returns the exception or None.
     A damaged message can make the library interpret garbage as a huge replication count; the
     watchdog (8 s) turns that into a skipped case (CaseTimeout is returned, never judged)."""
+    held = []
     try:
         with time_limit(8):
             for m in itertools.islice(gen, cap + 1):
                 out.append(m.serialized_bytes)
+                held.append(m)
     except BaseException as e:
         return e
+    finally:
+        # the delivered message objects are kept by the caller: each still holds its own bytes when the scan has moved on
+        try:
+            if len(set(id(m) for m in held)) != len(held) or [m.serialized_bytes for m in held] != out[len(out) - len(held):]:
+                out.append(b'<<a delivered message object no longer holds the bytes it held when it was delivered>>')
+        except Exception:
+            pass
     return None
 
 
